@@ -71,6 +71,31 @@ def cmdline(ctx, lens):
         ctx.prove(got == [], "empty-argv")
 
 
+WITNESS_ARGV = [[b"\xff\xfe", b"caf\xc3\xa9"], [b"a b", b"", b"c"], [b"\xe2\x82"], [b"x" * 5000, b"y"], [b"", b""], [b"=", b"-=-"]]
+
+
+@harness("C12.cmdline_witness", quick=[dict(i=i) for i in range(len(WITNESS_ARGV))])
+def cmdline_witness(ctx, i):
+    """concrete witnesses: non-UTF-8 bytes, empty arguments, very long arguments (decoded by the real codec)"""
+    from psv.simk import _common
+
+    k = base(ctx)
+    argv = WITNESS_ARGV[i]
+    k.files["/proc/77/cmdline"] = b"".join(a + b"\x00" for a in argv)
+    with k.installed():
+        got = ctx.guard("cmdline-no-exception", psutil.Process(77).cmdline)
+    want = [a.decode(_common.ENCODING, _common.ENCODING_ERRS) for a in argv]
+    if len(argv) == 1 and b" " in argv[0]:
+        want = want[0].split(" ")
+    ctx.prove(got == want, "argv-exact", detail=f"{got!r} vs {want!r}")
+    env = b"".join(a + b"=" + a + b"\x00" for a in argv if a and b"=" not in a) + b"\x00junk=1\x00"
+    k.files["/proc/77/environ"] = env
+    with k.installed():
+        e = ctx.guard("environ-no-exception", psutil.Process(77).environ)
+    wante = {a.decode(_common.ENCODING, _common.ENCODING_ERRS): a.decode(_common.ENCODING, _common.ENCODING_ERRS) for a in argv if a and b"=" not in a}
+    ctx.prove(e == wante, "environ-map", detail=f"{len(e)} entries")
+
+
 @harness("C12.title", quick=[dict(n=n, trailing_nul=t) for n in (1, 3, 5) for t in (False, True)], thorough=[dict(n=n, trailing_nul=t) for n in (1, 2, 3, 5, 7) for t in (False, True)])
 def title(ctx, n, trailing_nul):
     """a process that overwrote its title: one blob without NUL separators -> split on spaces"""
